@@ -34,6 +34,7 @@ def drive(rec):
     cr = xtal.build_crystal(rec)
     sg = cr.space_group
     t["ops"] = [int(s.integer_code) for s in sg.symmetry_operations]
+    t["table_ops"] = rec["table_ops"]
     n = rec["n"]
     cap = {}
     orig = sg.apply_all_symops
@@ -93,7 +94,7 @@ def recipes_for(ctx, rows, per_setting):
             gram = xtal.sym_gram(r["ops"], rng)
             lo = [rng.randint(-2, 0) for _ in range(3)]
             hi = [rng.randint(0, 1) for _ in range(3)]
-            out.append({"number": r["number"], "choice": r["choice"], "n": n, "gram": gram,
+            out.append({"number": r["number"], "choice": r["choice"], "table_ops": r["ops"], "n": n, "gram": gram,
                         "u": rng.uniform(3.0, 12.0) / (max(gram[i][i] for i in range(3)) ** 0.5),
                         "asym": asym, "slab": [lo, hi], "route": rng.choice(["params", "vectors"]),
                         "decimals": rng.choice([0, 0, 12, 9])})
@@ -107,7 +108,7 @@ def recipes_for(ctx, rows, per_setting):
             if not asym:
                 continue
             gram = xtal.sym_gram(r["ops"], rng)
-            out.append({"number": r["number"], "choice": r["choice"], "n": 12, "gram": gram,
+            out.append({"number": r["number"], "choice": r["choice"], "table_ops": r["ops"], "n": 12, "gram": gram,
                         "u": rng.uniform(3.0, 12.0) / (max(gram[i][i] for i in range(3)) ** 0.5),
                         "asym": asym, "slab": [[-1, 0, 0], [0, 0, 1]], "route": "params", "decimals": rng.choice([12, 9, 12]),
                         "src": "file-precision special positions"})
